@@ -184,3 +184,29 @@ def field_writers(fb, field, files):
         if hit:
             out[path] = it
     return out
+
+
+def batch_validated(fb, p, upto):
+    """(start <= capacity, start + len(leaves) <= capacity, every removal index < capacity) as they follow from the conditions of path
+    `p` before trace position `upto`, for an `override_range(self, start, leaves, indices)` body - whatever the spelling or grouping
+    of the guards (one compound test or several, `any(>=)` false or `all(<)` true, negated forms). `capacity` may appear as the
+    call or inlined as 1 << depth."""
+    from . import panics
+    from .lib import P, F
+    from .symex import mk_const
+    caps = [("bin", "Shl", mk_const("usize", 1), F(P(1), "depth"))]
+    for e in p.trace[:upto]:
+        if e[0] == "call" and e[1].endswith("ZerokitMerkleTree>::capacity") and e[2] == (P(1),):
+            caps.append(("call", e[1], e[2]))
+    old = panics.FB
+    panics.FB = fb
+    try:
+        fa = panics.facts_of(p.trace, upto)
+        v_start = any(fa.le(P(2), c) for c in caps)
+        v_fit = v_start and any(fa.le(("bin", "Add", P(2), ("len", P(3))), c) for c in caps)
+        is_cap = lambda bd: bd in caps or (isinstance(bd, tuple) and bd and bd[0] == "call" and bd[1].endswith("ZerokitMerkleTree>::capacity") and bd[2] == (P(1),)) \
+            or any(fa.le(bd, c) for c in caps)
+        v_idx = any(panics.strip_iter(sq) == P(4) and is_cap(bd) for sq, bd in fa.forall)
+    finally:
+        panics.FB = old
+    return v_start, v_fit, v_idx
